@@ -33,10 +33,21 @@ warnings.filterwarnings('ignore')
 
 
 def run(chk, replay=None):
+    from translate import tx_portops
+    gtext, ginfo = tx_portops.generate(common.REPO)
+    gen_path = os.path.join(common.LEAN, 'Lcapy', 'Generated', 'PortOps.lean')
+    with common.LakeLock():
+        if not os.path.exists(gen_path) or open(gen_path).read() != gtext:
+            with open(gen_path, 'w') as f:
+                f.write(gtext)
+    chk.coverage['translator'] = {'status': 'ok' if not ginfo['unparsed'] else 'partial', 'unparsed': ginfo['unparsed'],
+                                  'operations': [list(r[:1]) + [r[2], r[4], r[6]] for r in ginfo['ops']],
+                                  'helpers': [list(h[:5]) for h in ginfo['helpers']],
+                                  'killNoArgsKillsICs': ginfo['killNoArgsKillsICs'], 'addGround': ginfo['addGround']}
     broken = chk.lean(['Lcapy/Props/C04.lean', 'Lcapy/Props/C04Ground.lean', 'Lcapy/Props/C04Ops.lean', 'Lcapy/Props/C04Load.lean'],
                       helper_files=['Lcapy/Proofs/Linear.lean', 'Lcapy/Proofs/MNA.lean', 'Lcapy/Model/MNA.lean',
                                     'Lcapy/Model/Sources.lean', 'Lcapy/Spec/Laws.lean', 'Lcapy/Props/C03.lean',
-                                    'Lcapy/Proofs/Ground.lean', 'Lcapy/Model/PortOps.lean', 'Lcapy/Driver/C04.lean'],
+                                    'Lcapy/Proofs/Ground.lean', 'Lcapy/Proofs/PortOps.lean', 'Lcapy/Model/PortOps.lean', 'Lcapy/Generated/PortOps.lean', 'Lcapy/Driver/C04.lean'],
                       leanchecker=(chk.tier == 'thorough'))
     import time as _time
     tmark = {'t': chk.t0}
@@ -350,7 +361,7 @@ def run(chk, replay=None):
 
     done = 0
     attempts = 0
-    plan = (['s'] * 10 + ['ivp'] * 8 + ['ac'] * 7 + ['dc'] * 5) if quick else (['s'] * 100 + ['ivp'] * 90 + ['ac'] * 70 + ['dc'] * 40)
+    plan = (['s'] * 10 + ['ivp'] * 8 + ['ac'] * 7 + ['dc'] * 5) if quick else (['s'] * 60 + ['ivp'] * 60 + ['ac'] * 50 + ['dc'] * 30)
     while done < len(plan) and attempts < 6 * len(plan):
         attempts += 1
         kind = plan[done]
@@ -423,13 +434,70 @@ def run(chk, replay=None):
             return lcapy.Vstep(b) + X(a) + X(a2)
         return lcapy.Vstep(b) + (X(a) | X(a2))
 
-    nnets = 14 if quick else 200
+    def odd_parallel_net(i):
+        """3 or 5 parallel branches that `simplify()` cannot merge (each a series pair of different kinds, or a lone
+        reactive element), with sources and initial conditions: `thevenin()` / `norton()` flatten the nested `|` into one
+        n-ary `Par`, whose netlist is drawn branch by branch around the centre"""
+        def val():
+            return R_(Fraction(rng.randint(1, 9), rng.randint(1, 3)))
+        b = R_(Fraction(rng.randint(1, 9), rng.randint(1, 3)) * rng.choice([1, -1]))
+        pool = [lambda: lcapy.Vstep(b) + lcapy.R(val()), lambda: lcapy.R(val()) + lcapy.L(val()),
+                lambda: lcapy.C(val(), b) if i % 2 else lcapy.C(val()), lambda: lcapy.R(val()) + lcapy.C(val()),
+                lambda: lcapy.L(val(), b) + lcapy.R(val()), lambda: lcapy.Vstep(-b) + lcapy.L(val())]
+        n = 3 if i % 3 else 5
+        picks = rng.sample(range(len(pool)), n)
+        if 0 not in picks and 5 not in picks:
+            picks[rng.randrange(n)] = 0          # at least one source
+        net = pool[picks[0]]()
+        for q in picks[1:]:
+            net = net | pool[q]()
+        return net
+
+    MERGE_PLAN = [('C', 'ser', (1, 0)), ('L', 'par', (0, 1)), ('C', 'ser', (0, 1)), ('L', 'par', (1, 0)), ('L', 'ser', (1, 0)), ('C', 'par', (0, 1)),
+                  ('C', 'ser', (1, 1)), ('L', 'par', (1, 1)), ('L', 'ser', (0, 1)), ('C', 'par', (1, 0)), ('L', 'ser', (1, 1)), ('C', 'par', (1, 1)),
+                  ('C', 'ser', (0, 0)), ('L', 'par', (0, 0))]
+
+    def merge_net(i):
+        """two reactive elements of one kind that `simplify()` merges (series C + C, parallel L | L and the other two pairings),
+        with an initial condition on the first, the second, both or none, other elements in between, and a source"""
+        X, top, (ic1, ic2) = MERGE_PLAN[i % len(MERGE_PLAN)]
+        mk = lcapy.C if X == 'C' else lcapy.L
+
+        def val():
+            return R_(Fraction(rng.randint(1, 9), rng.randint(1, 3)))
+
+        def icv():
+            return R_(Fraction(rng.randint(1, 9), rng.randint(1, 3)) * rng.choice([1, -1]))
+        e1 = mk(val(), icv()) if ic1 else mk(val())
+        e2 = mk(val(), icv()) if ic2 else mk(val())
+        mid = rng.choice([lcapy.R(val()), (lcapy.L(val()) if X == 'C' else lcapy.C(val())), None])
+        parts = [e1] + ([mid] if mid is not None else []) + [e2]
+        net = parts[0]
+        for q in parts[1:]:
+            net = (net + q) if top == 'ser' else (net | q)
+        if rng.random() < 0.5:
+            b = icv()
+            net = (net + lcapy.Vstep(b)) if top == 'ser' else (net | lcapy.Istep(b))
+        return net
+
+    nnets = 8 if quick else 120
     ndirected_nets = 12 if quick else 48
-    for k in range(nnets + ndirected_nets):
+    nodd_nets = 4 if quick else 30
+    nmerge_nets = 6 if quick else 42
+    for k in range(nnets + ndirected_nets + nodd_nets + nmerge_nets):
         sp = Fraction(rng.randint(1, 9), rng.randint(2, 5))
         try:
-            with common.time_limit(10 if quick else 30):
-                net = directed_net(k) if k < ndirected_nets else tree(1, rng.choice(['ser', 'par']))
+            with common.time_limit(10 if quick else 12):
+                if k < ndirected_nets:
+                    net = directed_net(k)
+                elif k < ndirected_nets + nodd_nets:
+                    net = odd_parallel_net(k)
+                    chk.count('oneport', 'odd-parallel')
+                elif k < ndirected_nets + nodd_nets + nmerge_nets:
+                    net = merge_net(k - ndirected_nets - nodd_nets)
+                    chk.count('oneport', 'mergeable-pair')
+                else:
+                    net = tree(1, rng.choice(['ser', 'par']))
                 desc = str(net)
                 Voc0 = at(net.Voc.laplace(), sp, {})
                 Z0 = at(net.Z, sp, {})
@@ -461,6 +529,8 @@ def run(chk, replay=None):
             bad = 'thevenin() model (Voc %s, Z %s) differs from the network (Voc %s, Z %s)' % (VocT, ZT, Voc0, Z0)
         elif not close(IscN, Isc0) or not y_ok:
             bad = 'norton() model (Isc %s, Y %s) differs from the network (Isc %s, Z %s; Y Z = %s)' % (IscN, YN, Isc0, Z0, yz)
+        elif not close(VocT, cmul(IscN, ZT)):
+            bad = 'thevenin() and norton() models are inconsistent: Voc %s, Isc %s, Z %s' % (VocT, IscN, ZT)
         elif (VocT, ZT, IscN) != (Voc0, Z0, Isc0):
             chk.count('oneport', 'equal-up-to-float-noise')
         if bad:
@@ -516,7 +586,7 @@ def run(chk, replay=None):
             out.append(' '.join(tk))
         return out
 
-    for k in range(9 if quick else 150):
+    for k in range(9 if quick else 100):
         sp = Fraction(rng.randint(1, 9), rng.randint(2, 5))
         if k % 5 == 4:
             case = gen_netlist.random_case(rng, analysis='s', max_nodes=5)
@@ -537,6 +607,12 @@ def run(chk, replay=None):
             p1, p2 = '1', str(rng.randint(2, last))
             m1 = m2 = '0'
             family = 'ladder-interior' if p2 != str(last) else 'ladder-end'
+            if k % 5 in (1, 3):
+                # an output port whose negative terminal is NOT the common one (the voltage across a series arm, or up to the
+                # middle of a two-element shunt arm): never a ladder for Lcapy, always the general route
+                cand = sorted({n_ for l in lines for n_ in l.split()[1:3]} - {'0', p2})
+                m2 = rng.choice(cand)
+                family = 'ladder-floating-output'
         text = '\n'.join(lines + extra)
         body = ' || '.join(lines + extra)
         chk.count('transfer-family', family)
@@ -601,7 +677,7 @@ def run(chk, replay=None):
     def m2s(M):
         return ' '.join(fstr(x_) for x_ in M)
 
-    for k in range(6 if quick else 100):
+    for k in range(6 if quick else 60):
         sp = Fraction(rng.randint(1, 9), rng.randint(2, 5))
         if k % 3 == 2:
             case = gen_netlist.random_case(rng, analysis=rng.choice(['s', 'ivp']), max_nodes=5)
